@@ -93,8 +93,32 @@ theorem operative_only_supplied (c : Cfgable) (cfg : Store) (σ : Scope) (args :
           simp only [Option.some.injEq] at hv
           subst hv
           simp only [Bool.and_eq_true] at hf
-          exact ⟨rfl, rfl, hf.1, hf.2⟩
+          exact ⟨rfl, rfl, hf.1.1, hf.1.2⟩
         · cases hv
+
+/-- A positional-only parameter (D56, D57) is never among the defaults the operative record starts from: no binding
+    could fill it on replay (with `**kwargs` a binding of that name is accepted, but lands in `**kwargs`). -/
+theorem positional_only_default_not_recorded (c : Cfgable) (p : String)
+    (hpo : p ∈ c.sig.args.take c.sig.posOnly) (hnd : c.sig.allArgs.Nodup) :
+    lookup p c.configurableDefaults = none := by
+  have hno : c.sig.kwNames.contains p = false := by
+    simp only [Sig.kwNames]
+    rw [Bool.eq_false_iff]
+    intro hc
+    simp only [List.contains_iff_mem, List.mem_append] at hc
+    have hsplit : c.sig.allArgs =
+        c.sig.args.take c.sig.posOnly ++ (c.sig.args.drop c.sig.posOnly ++ c.sig.kwonlyNames) := by
+      simp [Sig.allArgs, ← List.append_assoc, List.take_append_drop]
+    rw [hsplit] at hnd
+    exact (List.nodup_append.1 hnd).2.2 _ hpo _ (List.mem_append.2 hc) rfl
+  unfold Cfgable.configurableDefaults
+  rw [lookup_filter _ _ (kwargDefaults_nodup c.sig)]
+  cases lookup p c.sig.kwargDefaults with
+  | none => rfl
+  | some w =>
+    have hnm : ¬ p ∈ c.sig.kwNames := by
+      intro hm; rw [← List.contains_iff_mem] at hm; rw [hm] at hno; cases hno
+    simp [hnm]
 
 /-- The record update of one call: the entry of the (active scope, configurable) pair is created or
     updated with what this call contributes (most recent value wins); every other entry — in
